@@ -24,7 +24,7 @@ def own_cases(tier):
     V = 'a := int(NondetInt16(0))\nb := int(NondetInt16(1))\n_, _ = a, b\n'
     ok = lambda evs: [('true', evs, 'normal')]
     # many variables in one scope: every one gets its own short name
-    for n in ([30, 60] if tier == 'quick' else [30, 720]):
+    for n in ([30, 130] if tier == 'quick' else [30, 130, 720]):
         decl = '//go:noinline\nfunc many%d(a, b int) int {\n' % n
         decl += ''.join('\tv%d := a + %d\n' % (i, i) for i in range(n))
         decl += '\ts := 0\n' + ''.join('\ts += v%d * %d\n' % (i, (i % 7) + 1) for i in range(n)) + '\treturn s + b\n}\n'
@@ -114,7 +114,7 @@ def main():
             ev['violations'] += kev['violations']
     return krc | runner.run_property('C16', allc, tier=tier, chunk=1, minify=True, post=post,
                                title='the same references as C02/C06/C07/C08/C14 plus minify-specific templates, on output built with -m',
-                               bounds={'corpus': 'own templates (identifier exhaustion up to %d names in a scope, shadowing, local types in closures, awkward string literals, adjacent minus) + C07/C08/C14/C02 corpora + a third of the C06 var-var/shift/conversion matrix' % (60 if tier == 'quick' else 720),
+                               bounds={'corpus': 'own templates (identifier exhaustion up to %d names in a scope, shadowing, local types in closures, awkward string literals, adjacent minus) + C07/C08/C14/C02 corpora + a third of the C06 var-var/shift/conversion matrix' % (130 if tier == 'quick' else 720),
                                        'outside': 'programs outside the corpus'},
                                cfg={'maxDepth': 800, 'maxPaths': 40000, 'timeoutMs': 10000, 'maxWallMs': 600000}, z3_timeout_ms=15000)
 
